@@ -131,14 +131,28 @@ int64_t cmb_resourceguard_wait(struct cmb_resourceguard *rgp,
                                cmb_resourceguard_demand_func *demand,
                                const void *ctx)
 {
+    return cmi_resourceguard_wait_since(rgp, demand, ctx, cmb_time());
+}
+
+/*
+ * cmi_resourceguard_wait_since - As cmb_resourceguard_wait, but ranking the
+ * calling process among equal priorities by the given entry time. Used by a
+ * process that was let through but found the resource taken again and has to
+ * get back in line without losing its place.
+ */
+int64_t cmi_resourceguard_wait_since(struct cmb_resourceguard *rgp,
+                                     cmb_resourceguard_demand_func *demand,
+                                     const void *ctx,
+                                     const double entry_time)
+{
     cmb_assert_release(rgp != NULL);
     cmb_assert_release(demand != NULL);
+    cmb_assert_release(entry_time <= cmb_time());
 
     /* cmb_process_current returns NULL if called from the main process */
     struct cmb_process *pp = cmb_process_current();
     cmb_assert_release(pp != NULL);
 
-    const double entry_time = cmb_time();
     const int64_t priority = cmb_process_priority(pp);
     const uint64_t key = cmi_hashheap_enqueue((struct cmi_hashheap *)rgp,
                                               (void *)pp,
@@ -164,8 +178,9 @@ int64_t cmb_resourceguard_wait(struct cmb_resourceguard *rgp,
              * sure the wakeup call does not arrive later, and give the next
              * process in line the chance we cannot use.
              */
-            (void)cmb_event_pattern_cancel(wakeup_event_resource, pp, CMB_ANY_OBJECT);
-            (void)cmb_resourceguard_signal(rgp);
+            if (cmb_event_pattern_cancel(wakeup_event_resource, pp, CMB_ANY_OBJECT) > 0u) {
+                (void)cmb_resourceguard_signal(rgp);
+            }
         }
     }
 
